@@ -286,25 +286,6 @@ theorem derived_fields (f : Rat → Rat) (xs : List Rat) (x : Rat) :
   simp only [Summary.update, Dispersion.update, calculatePopulationVariance, hc,
     natCast_succ_not_lt_one, if_false, and_self]
 
-/-- Welford's `m` equals the sum of squared deviations from the whole-dataset mean. -/
-theorem m_eq_specM (f : Rat → Rat) (xs : List Rat) :
-    (Summary.run f xs).dispersion.recurrenceRelationM = specM xs := by
-  have h := inv_run f xs
-  cases xs with
-  | nil => simp [Summary.run, Summary.default, Dispersion.default, specM, sqDev]
-  | cons x xs =>
-    have hne : x :: xs ≠ [] := by simp
-    have hpos := natCast_pos_of_ne_nil hne
-    have hmean : (Summary.run f (x :: xs)).mean = specMean (x :: xs) := by
-      have h1 := h.mean
-      have h2 := specMean_mul_length hne
-      have : (Summary.run f (x :: xs)).mean * ((x :: xs).length : Rat)
-          = specMean (x :: xs) * ((x :: xs).length : Rat) := by rw [h1, h2]
-      exact mul_right_cancel_of_ne (by grind) this
-    rw [h.m, specM, sqDev_expand, hmean]
-    have h2 := specMean_mul_length hne
-    grind
-
 theorem mean_eq_specMean (f : Rat → Rat) (xs : List Rat) :
     (Summary.run f xs).mean = specMean xs := by
   have h := inv_run f xs
@@ -318,6 +299,20 @@ theorem mean_eq_specMean (f : Rat → Rat) (xs : List Rat) :
     have : (Summary.run f (x :: xs)).mean * ((x :: xs).length : Rat)
         = specMean (x :: xs) * ((x :: xs).length : Rat) := by rw [h1, h2]
     exact mul_right_cancel_of_ne (by grind) this
+
+/-- Welford's `m` equals the sum of squared deviations from the whole-dataset mean. -/
+theorem m_eq_specM (f : Rat → Rat) (xs : List Rat) :
+    (Summary.run f xs).dispersion.recurrenceRelationM = specM xs := by
+  have h := inv_run f xs
+  cases xs with
+  | nil => simp [Summary.run, Summary.default, Dispersion.default, specM, sqDev]
+  | cons x xs =>
+    have hne : x :: xs ≠ [] := by simp
+    have hpos := natCast_pos_of_ne_nil hne
+    have hmean := mean_eq_specMean f (x :: xs)
+    rw [h.m, specM, sqDev_expand, hmean]
+    have h2 := specMean_mul_length hne
+    grind
 
 /-- every non-empty list is some `ys ++ [y]` -/
 theorem exists_snoc : ∀ (xs : List Rat), xs ≠ [] → ∃ ys y, xs = ys ++ [y]
@@ -408,5 +403,96 @@ theorem specSummary_perm (f : Rat → Rat) {xs ys : List Rat} (h : xs.Perm ys) :
   have he : xs.isEmpty = ys.isEmpty := by
     cases xs <;> cases ys <;> simp_all
   simp only [specSummary, hl, ht, hmean, hM, hv, he, specHigh_perm h, specLow_perm h]
+
+/-! ### the drivers' square root -/
+
+theorem isqrtGo_spec (k n : Nat) : ∀ a, a * a ≤ n → n < (a + 2 ^ (k + 1)) * (a + 2 ^ (k + 1)) →
+    isqrtGo k n a * isqrtGo k n a ≤ n ∧ n < (isqrtGo k n a + 1) * (isqrtGo k n a + 1) := by
+  induction k with
+  | zero =>
+    intro a h1 h2
+    simp only [isqrtGo]
+    split
+    · next h => exact ⟨h, by simpa [Nat.add_assoc] using h2⟩
+    · next h => exact ⟨h1, by omega⟩
+  | succ k ih =>
+    intro a h1 h2
+    simp only [isqrtGo]
+    split
+    · next h =>
+      apply ih _ h
+      have : a + 2 ^ (k + 1) + 2 ^ (k + 1) = a + 2 ^ (k + 1 + 1) := by
+        rw [Nat.pow_succ 2 (k+1)]; omega
+      rw [this]; exact h2
+    · next h => exact ih _ h1 (by omega)
+
+theorem isqrt_spec (n : Nat) : isqrt n * isqrt n ≤ n ∧ n < (isqrt n + 1) * (isqrt n + 1) := by
+  apply isqrtGo_spec _ _ 0 (by simp)
+  have h := @Nat.lt_log2_self n
+  have h1 : 1 ≤ 2 ^ (n.log2 + 1) := Nat.one_le_two_pow
+  simp only [Nat.zero_add]
+  calc n < 2 ^ (n.log2 + 1) := h
+    _ = 2 ^ (n.log2 + 1) * 1 := by simp
+    _ ≤ 2 ^ (n.log2 + 1) * 2 ^ (n.log2 + 1) := Nat.mul_le_mul_left _ h1
+
+theorem sqrtScale_pos : (0 : Rat) < (sqrtScale : Rat) :=
+  Rat.natCast_pos.mpr (by decide)
+
+theorem sqrtApprox_spec (r : Rat) (hr : 0 ≤ r) :
+    0 ≤ sqrtApprox r ∧ sqrtApprox r * sqrtApprox r ≤ r ∧
+    r < (sqrtApprox r + 1 / (sqrtScale : Rat)) * (sqrtApprox r + 1 / (sqrtScale : Rat)) := by
+  have hS := sqrtScale_pos
+  have hSne : (sqrtScale : Rat) ≠ 0 := by grind
+  have hSS : (0 : Rat) < (sqrtScale : Rat) * (sqrtScale : Rat) := Rat.mul_pos hS hS
+  have hinv : (0:Rat) < 1 / (sqrtScale : Rat) := by
+    rw [Rat.div_def, Rat.one_mul]; exact Rat.inv_pos.mpr hS
+  unfold sqrtApprox
+  split
+  · next h0 =>
+    have : r = 0 := Rat.le_antisymm h0 hr
+    subst this
+    refine ⟨Rat.le_refl, by grind, ?_⟩
+    have := Rat.mul_pos hinv hinv
+    grind
+  · next hpos =>
+    simp only
+    generalize ht : r * ((sqrtScale : Rat) * (sqrtScale : Rat)) = t
+    have ht0 : 0 ≤ t := by rw [← ht]; exact Rat.mul_nonneg hr (Rat.le_of_lt hSS)
+    have hf0 : 0 ≤ t.floor := Rat.le_floor_iff.mpr (by simpa using ht0)
+    generalize hN : t.floor.toNat = N
+    have hNf : (N : Int) = t.floor := by rw [← hN]; exact Int.toNat_of_nonneg hf0
+    have hle : (N : Rat) ≤ t := by
+      have := Rat.floor_le t
+      rw [← hNf, Rat.intCast_natCast] at this; exact this
+    have hlt : t < (N : Rat) + 1 := by
+      have := Rat.lt_floor_add_one t
+      rw [← hNf, Rat.intCast_add, Rat.intCast_natCast] at this; exact this
+    obtain ⟨h1, h2⟩ := isqrt_spec N
+    generalize isqrt N = k at h1 h2
+    have h1' : (k : Rat) * (k : Rat) ≤ (N : Rat) := by
+      rw [← Rat.natCast_mul]; exact Rat.natCast_le_natCast.mpr h1
+    have h2' : (N : Rat) + 1 ≤ ((k : Rat) + 1) * ((k : Rat) + 1) := by
+      have : N + 1 ≤ (k + 1) * (k + 1) := h2
+      have := (Rat.natCast_le_natCast).mpr this
+      simpa [Rat.natCast_add, Rat.natCast_mul] using this
+    have hq : (k : Rat) / (sqrtScale : Rat) * (sqrtScale : Rat) = k := Rat.div_mul_cancel hSne
+    have hone : 1 / (sqrtScale : Rat) * (sqrtScale : Rat) = 1 := Rat.div_mul_cancel hSne
+    generalize (k : Rat) / (sqrtScale : Rat) = q at hq
+    generalize 1 / (sqrtScale : Rat) = e at hone hinv
+    generalize (sqrtScale : Rat) = S at *
+    refine ⟨?_, ?_, ?_⟩
+    · have hk : (0:Rat) ≤ (k:Rat) := Rat.natCast_nonneg
+      rw [← hq] at hk
+      have : 0 * S ≤ q * S := by simpa using hk
+      exact Rat.le_of_mul_le_mul_right this hS
+    · have : q * q * (S * S) ≤ r * (S * S) := by
+        have e1 : q * q * (S * S) = (k:Rat) * (k:Rat) := by rw [← hq]; grind
+        rw [e1, ht]; exact Rat.le_trans h1' hle
+      exact Rat.le_of_mul_le_mul_right this hSS
+    · have : r * (S * S) < (q + e) * (q + e) * (S * S) := by
+        have e1 : (q + e) * (q + e) * (S * S) = ((k:Rat) + 1) * ((k:Rat) + 1) := by
+          rw [← hq, ← hone]; grind
+        rw [e1, ht]; grind
+      exact Rat.lt_of_mul_lt_mul_right this (Rat.le_of_lt hSS)
 
 end BarterModel.DataSet
